@@ -275,6 +275,8 @@ NEIGHBOURS = {
     "C10": [("c01", ("C01.R1", "C01.R2", "C01.R3", "C01.R5")), ("c02", ("C02.R",))],  # + Z = sum of probabilities
     "C12": [("c07", ("C07.R2", "C07.R6"))],                                   # one batch-start/batch-end pair per batch: ceil(N / pos_batch_size) batches per epoch
     "C13": [("c08", ("C08.R1",)), ("c16", ("C16.R5",))],             # estimators (built-in and composite) leave the chain state alone                                   # estimators leave the chain state alone
+    "C14": [("c06", ("C06.R1",), None, ("negative batch not overwritten",))],   # "the same sequence of operations yields bit-identical results": computing batch gradients leaves the caller's batches as they were
+    "C16": [("c13", ("C13.R4", "C13.R5"), ("ObservableBase.statistics", "variance", "mean [", "length [", "generic branch"))],                        # "its statistics are those of that combined per-sample value": composites inherit ObservableBase.statistics and its merge routine
     "C17": [("c11", ("C11.R1",)), ("c12", ("C12.R4",))],
     "C19": [("c04", ("C04.R4",))],                                   # site 0 is the leftmost factor of every tensor product             # every callback in the list receives every event
     "C18": [("c17", ("C17.R2",))],
